@@ -21,6 +21,7 @@ assert sh(f"git -C /repo worktree add -q --detach {wt} HEAD", cwd="/")[0] == 0
 res = {"repo_head": sh("git rev-parse --short HEAD")[1].strip(), "at": time.strftime("%Y-%m-%dT%H:%M:%SZ", time.gmtime())}
 try:
     for dm in meta["demo"]:
+        os.makedirs(os.path.join(wt, dm["dest"]), exist_ok=True)
         shutil.copy(f"{d}/{dm['file']}", os.path.join(wt, dm["dest"], dm["file"]))
     res["demo_clean_pass"] = all(sh("timeout 900 " + dm["run"])[0] == 0 for dm in meta["demo"])
     rc, out = sh(f"git apply {d}/patch.diff")
